@@ -303,11 +303,29 @@ def minimise(spec, values, stratum, violation, *, mutant=None, max_attempts=400)
     return shrink(values, still_fails, max_attempts=max_attempts)
 
 
+def _run_values_job(args):
+    (values, stratum, mutant, record, labels) = args
+    res, used = run_values(_SPEC, values, stratum, mutant=mutant, record=record, labels=labels)
+    return res, used
+
+
+def _run_seed_job(args):
+    (seed, stratum, record) = args
+    return run_seed(_SPEC, seed, stratum, record=record)
+
+
+def in_worker(ex, fn, *args):
+    """The main process never runs a world itself: a process hosts at most
+    one island (and one mutant of it)."""
+    return ex.submit(fn, args).result(timeout=1800)
+
+
 def _minimise_job(args):
-    (values, stratum, violation, max_attempts) = args
+    (values, stratum, violation, max_attempts) = args[:4]
+    mutant = args[4] if len(args) > 4 else None
     faulthandler.dump_traceback_later(900, exit=True)
     try:
-        return minimise(_SPEC, values, stratum, violation, max_attempts=max_attempts)
+        return minimise(_SPEC, values, stratum, violation, mutant=mutant, max_attempts=max_attempts)
     finally:
         faulthandler.cancel_dump_traceback_later()
 
@@ -442,7 +460,7 @@ def run_check(spec, tier, base_seed, *, out=print):
             except Exception as e:
                 harness_msgs.append(f'shrinker failed for {key}: {e!r}')
                 continue
-            res, used2 = run_values(spec, mini, stratum, record=True, labels=True)
+            res, used2 = in_worker(ex, _run_values_job, mini, stratum, None, True, True)
             v2 = next((x for x in res['violations'] if vkey(x) == vkey(v)), None)
             if v2 is None:
                 harness_msgs.append(f'minimised tape for {key} does not reproduce in process')
@@ -466,7 +484,10 @@ def run_check(spec, tier, base_seed, *, out=print):
                 continue
             p = os.path.join(VERIF, kf['exemplar'])
             try:
-                ok, res, doc = replay_file(spec, p)
+                doc = json.load(open(p))
+                res, _ = in_worker(ex, _run_values_job, doc['tape'], doc['stratum'], None, False, False)
+                exp = doc['expected']
+                ok = any(vkey(v) == (exp['property'], exp['kind'], exp['signature']) for v in res['violations'])
             except Exception as e:
                 harness_msgs.append(f'exemplar {p} failed to run: {e!r}')
                 continue
@@ -480,6 +501,7 @@ def run_check(spec, tier, base_seed, *, out=print):
         fixed_stats = {'exemplars': 0, 'clean_on_tree': 0, 'reproduce_with_revert': 0,
                        'stale': [], 'revert_unavailable': []}
         mutants_by_name = {m['name']: m for m in spec.mutants}
+        revert_jobs = collections.OrderedDict()   # mutant name -> [(path, doc, key)]
         for fx in fixed:
             for path in sorted(glob.glob(os.path.join(VERIF, fx.get('exemplar_dir', ''), '*.json'))):
                 doc = json.load(open(path))
@@ -488,7 +510,7 @@ def run_check(spec, tier, base_seed, *, out=print):
                     continue
                 fixed_stats['exemplars'] += 1
                 key = (exp['property'], exp['kind'], exp['signature'])
-                res, used = run_values(spec, doc['tape'], doc['stratum'], record=True, labels=True)
+                res, used = in_worker(ex, _run_values_job, doc['tape'], doc['stratum'], None, True, True)
                 back = [v for v in res['violations'] if spec.relevant(v)]
                 if back:
                     v2 = back[0]
@@ -502,17 +524,31 @@ def run_check(spec, tier, base_seed, *, out=print):
                         harness_msgs.append(f'fixed exemplar {path} fails in process but not in a fresh interpreter')
                     continue
                 fixed_stats['clean_on_tree'] += 1
-                m = mutants_by_name.get(doc.get('mutant') or fx.get('revert_mutant'))
-                if m is None:
-                    continue
-                try:
-                    resm, _ = run_values(spec, doc['tape'], doc['stratum'], mutant=m)
-                    if any(vkey(v) == key for v in resm['violations']):
-                        fixed_stats['reproduce_with_revert'] += 1
-                    else:
-                        fixed_stats['stale'].append(os.path.relpath(path, VERIF))
-                except MutantUnavailable:
-                    fixed_stats['revert_unavailable'].append(m['name'])
+                mname = doc.get('mutant') or fx.get('revert_mutant')
+                if mname in mutants_by_name:
+                    revert_jobs.setdefault(mname, []).append((path, doc, key))
+        for mname, items in revert_jobs.items():
+            m = mutants_by_name[mname]
+            exm = make_pool(spec) if getattr(spec, 'isolated_mutants', False) else ex
+            try:
+                for path, doc, key in items:
+                    try:
+                        resm, _ = in_worker(exm, _run_values_job, doc['tape'], doc['stratum'], m, False, False)
+                        if any(vkey(v) == key for v in resm['violations']):
+                            fixed_stats['reproduce_with_revert'] += 1
+                        else:
+                            fixed_stats['stale'].append(os.path.relpath(path, VERIF))
+                    except MutantUnavailable:
+                        fixed_stats['revert_unavailable'].append(mname)
+                        break
+                    except Exception as e:
+                        if 'MutantUnavailable' in repr(e):
+                            fixed_stats['revert_unavailable'].append(mname)
+                            break
+                        raise
+            finally:
+                if exm is not ex:
+                    exm.shutdown(wait=False, cancel_futures=True)
 
         for kid, (kf, path, cnt) in known_hit.items():
             lines.append(f'KNOWN-FINDING: property={pid} {kf["what"]} [id={kid} replay={os.path.relpath(path, VERIF)} runs={cnt}]')
@@ -531,10 +567,11 @@ def run_check(spec, tier, base_seed, *, out=print):
             if m['name'] not in names:
                 continue
             budget = m.get('budget', 4000 if tier == 'quick' else 40000)
+            exm = make_pool(spec) if getattr(spec, 'isolated_mutants', False) else ex
             try:
                 caught = None
                 for stratum_try in (m.get('strata') or [None]):
-                    r = batch(ex, spec, tier, base_seed + 7919, budget, mutant=m,
+                    r = batch(exm, spec, tier, base_seed + 7919, budget, mutant=m,
                               only_stratum=stratum_try, max_viol=1, stop_on_first=True,
                               chunk=max(20, budget // (NPROC * 8)))
                     new = [x for x in r['violations']
@@ -555,17 +592,23 @@ def run_check(spec, tier, base_seed, *, out=print):
                     sens['unavailable'].append(m['name'])
                 else:
                     harness_msgs.append(f'mutant {m["name"]} failed to run: {e!r}')
+            finally:
+                if exm is not ex:
+                    exm.shutdown(wait=False, cancel_futures=True)
         if sens['missed']:
             lines.append(f'SELFTEST-WARNING: mutants not caught within budget: {sens["missed"]}')
+        samples_raw = []
+        for k in range(3):
+            stratum = stratum_for(spec, tier, k)
+            samples_raw.append((k, stratum) + tuple(
+                in_worker(ex, _run_seed_job, derive_seed(base_seed, k), stratum, True)))
     finally:
         ex.shutdown(wait=False, cancel_futures=True)
 
     wall = time.time() - t0
     # 5. evidence
     samples = []
-    for k in range(3):
-        stratum = stratum_for(spec, tier, k)
-        res, used = run_seed(spec, derive_seed(base_seed, k), stratum, record=True)
+    for (k, stratum, res, used) in samples_raw:
         s = spec.render_sample(res, used)
         s.update({'run_index': k, 'stratum': stratum, 'tape_len': len(used), 'steps': res['steps'],
                   'sim_time': res['sim_time']})
